@@ -50,6 +50,11 @@ fn corpus() -> Vec<Proj> {
         ("lib.rs", format!("{}pub mod models {{\nuse serde::{{Serialize, Deserialize}};\n{}pub mod deep {{\nuse serde::{{Serialize, Deserialize}};\n{}}}\n}}\n{}#[tauri::command]\npub fn get(o: Outer) -> models::Inner {{ todo!() }}\n",
             HDR, st("Inner", &[("id", "u32")]), st("Deep", &[("inner", "super::Inner")]), st("Outer", &[("inner", "models::Inner"), ("deep", "Option<models::deep::Deep>"), ("list", "Vec<crate::models::Inner>")]))),
     ]});
+    // names known to the dependency graph that are not declared types: the error arm of a Result field, a type used nowhere else
+    v.push(Proj { name: "graph_only_names", files: vec![
+        ("lib.rs", format!("{}{}{}{}{}#[tauri::command]\npub fn run(j: Job) -> Result<Outcome, Failure> {{ todo!() }}\n", HDR,
+            st("Job", &[("last", "Result<Outcome, Failure>"), ("history", "Vec<Result<Outcome, String>>")]), st("Outcome", &[("code", "u32")]), st("Failure", &[("why", "String")]), st("Orphan", &[("x", "u32")]))),
+    ]});
     // events in every documented placement
     v.push(Proj { name: "events", files: vec![
         ("ev.rs", format!("{}use tauri::Emitter;\n{}\n#[tauri::command]\npub async fn run(app: tauri::AppHandle, window: tauri::Window, flag: bool) -> Result<(), String> {{\n\
@@ -195,7 +200,7 @@ fn main() {
                 let out = root.join(p.name).join(format!("out_io_{}", mode));
                 let _ = fs::remove_dir_all(&out);
                 fs::create_dir_all(out.join("notes")).map_err(|e| e.to_string())?;
-                let decoys = ["helpers.ts", "my-types.ts", "types.tmp", "types.ts.bak", "commands.tmp", "index.tmp", "events.tmp", "index.js", "types.tsx", "README.md", ".typecache.old", "notes/keep.txt"];
+                let decoys = ["helpers.ts", "my-types.ts", "types.tmp", "types.ts.bak", "commands.tmp", "index.tmp", "events.tmp", "index.js", "types.tsx", "README.md", ".typecache.old", ".write_test", ".gitkeep", "commands.test.ts", "index.spec.ts", "notes/keep.txt"];
                 for d in decoys { fs::write(out.join(d), format!("foreign {}", d)).map_err(|e| e.to_string())?; }
                 let before = snapshot(&out);
                 let mut cfg = GenerateConfig::default();
@@ -240,6 +245,40 @@ fn main() {
             let extra: Vec<&&str> = got.iter().filter(|g| !want.contains(*g)).collect();
             if !extra.is_empty() { return Err(format!("events discovered that no emit site names: {:?}", extra)); }
             Ok(format!("{:?}", events))
+        });
+    }
+    // ---- C16: the build-script entry point (BuildSystem::run_generation: probe, generation, cleanup) with foreign files around
+    for mode in ["none", "zod"] {
+        rep.case("build_script_run_touches_only_reserved_names", &format!("mode={}", mode), &|| {
+            let proj = root.join(format!("build_{}", mode));
+            let _ = fs::remove_dir_all(&proj);
+            let src = proj.join("src-tauri/src");
+            fs::create_dir_all(&src).map_err(|e| e.to_string())?;
+            fs::write(src.join("lib.rs"), format!("{}{}#[tauri::command]\npub fn get_user(id: i32) -> Result<User, String> {{ todo!() }}\n", HDR, st("User", &[("id", "i32")]))).map_err(|e| e.to_string())?;
+            let out = proj.join("src/generated");
+            fs::create_dir_all(out.join("notes")).map_err(|e| e.to_string())?;
+            fs::write(proj.join("tauri.conf.json"), format!("{{\n  \"productName\": \"demo\",\n  \"plugins\": {{ \"typegen\": {{ \"projectPath\": {:?}, \"outputPath\": {:?}, \"validationLibrary\": {:?}, \"force\": true }} }}\n}}\n",
+                proj.join("src-tauri").to_string_lossy(), out.to_string_lossy(), mode)).map_err(|e| e.to_string())?;
+            let decoys = ["helpers.ts", "commands.test.ts", "index.spec.ts", "types.mock.ts", "bindings.helpers.ts", "mytypes.ts", "types.tsx", "README.md", ".write_test", ".gitkeep", "types.ts.bak", "notes/keep.txt"];
+            for d in decoys { fs::write(out.join(d), format!("foreign {}", d)).map_err(|e| e.to_string())?; }
+            fs::write(out.join("models.ts"), "// stale generated file").map_err(|e| e.to_string())?;
+            let conf_before = fs::read_to_string(proj.join("tauri.conf.json")).unwrap_or_default();
+            let src_before = fs::read_to_string(src.join("lib.rs")).unwrap_or_default();
+            let before = snapshot(&out);
+            let cwd = std::env::current_dir().map_err(|e| e.to_string())?;
+            std::env::set_current_dir(&proj).map_err(|e| e.to_string())?;
+            let mut result = Ok(());
+            for _ in 0..2 { if let Err(e) = tauri_typegen::BuildSystem::new(false, false).run_generation() { result = Err(format!("run_generation returned Err: {}", e)); break; } }
+            let _ = std::env::set_current_dir(&cwd);
+            result?;
+            let after = snapshot(&out);
+            if !after.contains_key("types.ts") { return Err("the build-script run generated no types.ts".into()); }
+            for (k, v) in &before { if !reserved(k) && after.get(k) != Some(v) { return Err(format!("foreign file {:?} in the output directory was modified or removed by the build-script run", k)); } }
+            for k in after.keys() { if !before.contains_key(k) && !reserved(k) { return Err(format!("file {:?} was created: not a reserved generated name", k)); } }
+            if fs::read_to_string(out.join("notes/keep.txt")).ok().as_deref() != Some("foreign notes/keep.txt") { return Err("notes/keep.txt changed".into()); }
+            if fs::read_to_string(proj.join("tauri.conf.json")).unwrap_or_default() != conf_before { return Err("tauri.conf.json was modified".into()); }
+            if fs::read_to_string(src.join("lib.rs")).unwrap_or_default() != src_before { return Err("a project source was modified".into()); }
+            Ok(format!("{:?}", after.keys().filter(|k| !before.contains_key(*k)).collect::<Vec<_>>()))
         });
     }
     // ---- C16: the deletion predicate of the build-script cleanup, on names near the reserved ones
